@@ -103,6 +103,106 @@ fn run_case<L: Locale>(c: &Value, w: &mut Out) {
     }
 }
 
+// ---- the real I18nRoute, built natively: N + 1 route families, matching and route generation ------------
+fn loc_name(key: &str, locale: &str) -> &'static str {
+    match (key, locale) {
+        ("about", "en") => "about",
+        ("about", "fr") => "a-propos",
+        ("about", "en-US") => "about-us",
+        ("about", "fra") => "apropos",
+        ("users", "en") => "users",
+        ("users", "fr") => "utilisateurs",
+        ("users", "en-US") => "users",
+        ("users", "fra") => "usagers",
+        _ => "unknown-localized-segment",
+    }
+}
+
+fn seg_json(segs: &[PathSegment]) -> Value {
+    Value::Array(
+        segs.iter()
+            .map(|s| match s {
+                PathSegment::Unit => json!({"t": "unit", "s": ""}),
+                PathSegment::Static(x) => json!({"t": "static", "s": x.to_string()}),
+                PathSegment::Param(x) => json!({"t": "param", "s": x.to_string()}),
+                PathSegment::OptionalParam(x) => json!({"t": "opt", "s": x.to_string()}),
+                PathSegment::Splat(x) => json!({"t": "splat", "s": x.to_string()}),
+            })
+            .collect(),
+    )
+}
+
+fn observe_routes<R>(defs: &leptos_router::RouteDefs<R>, c: &Value, w: &mut Out)
+where
+    R: leptos_router::MatchNestedRoutes,
+{
+    use leptos_router::{MatchInterface, MatchParams};
+    let id = c["case"].clone();
+    let routes: Vec<Value> = {
+        let (_, gen) = defs.generate_routes();
+        gen.into_iter().map(|g| seg_json(&g.segments)).collect()
+    };
+    w.emit(&json!({"ev": "Routes", "case": id, "routes": routes}));
+    for (k, p) in c["paths"].as_array().unwrap().iter().enumerate() {
+        let path = p.as_str().unwrap().to_string();
+        let r = run_caught(|| match defs.match_route(&path) {
+            None => json!({"matched": false, "prefix": "", "child": "", "params": {}}),
+            Some(m) => {
+                let prefix = m.as_matched().to_string();
+                let params: serde_json::Map<String, Value> = m.to_params().into_iter().map(|(k, v)| (k.to_string(), json!(v.split('/').filter(|x| !x.is_empty()).collect::<Vec<_>>()))).collect();
+                let (_, child) = m.into_view_and_child();
+                let child = child.map(|c| c.as_matched().to_string()).unwrap_or_else(|| "none".to_string());
+                json!({"matched": true, "prefix": prefix, "child": child, "params": params})
+            }
+        });
+        match r {
+            Ok(v) => w.emit(&json!({"ev": "Match", "case": id, "k": k + 1, "path": path, "path_segs": split(&path), "outcome": "Ok", "res": v})),
+            Err(msg) => w.emit(&json!({"ev": "Match", "case": id, "k": k + 1, "path": path, "path_segs": split(&path), "outcome": "Panic", "panic": msg,
+                                       "res": {"matched": false, "prefix": "", "child": "", "params": {}}})),
+        }
+    }
+}
+
+macro_rules! route_case {
+    ($m:ident, $c:expr, $w:expr) => {{
+        use leptos_i18n_router::I18nRoute;
+        use leptos_router::components::Route;
+        use leptos_router::{OptionalParamSegment, ParamSegment, StaticSegment, WildcardSegment};
+        type L = $m::i18n::Locale;
+        let about = || leptos_i18n_router::i18n_path!(L, |l: L| loc_name("about", l.as_str()));
+        let users = || leptos_i18n_router::i18n_path!(L, |l: L| loc_name("users", l.as_str()));
+        let owner = Owner::new();
+        owner.with(|| match $c["table"].as_str().unwrap() {
+            "T1" => {
+                let routes = view! {
+                    <I18nRoute<L, _, _> view=|| ()>
+                        <Route path=(about(),) view=|| ()/>
+                        <Route path=(users(), ParamSegment("p")) view=|| ()/>
+                        <Route path=(StaticSegment("docs"), WildcardSegment("s")) view=|| ()/>
+                    </I18nRoute<L, _, _>>
+                };
+                match $c["base"].as_str().unwrap() {
+                    "" => observe_routes(&leptos_router::RouteDefs::new(routes.clone().into_inner()), $c, $w),
+                    b => observe_routes(&leptos_router::RouteDefs::new_with_base(routes.clone().into_inner(), b.to_string()), $c, $w),
+                }
+            }
+            "T2" => {
+                let routes = view! {
+                    <I18nRoute<L, _, _> view=|| ()>
+                        <Route path=(OptionalParamSegment("o"), about()) view=|| ()/>
+                        <Route path=(StaticSegment("x"), users(), OptionalParamSegment("o")) view=|| ()/>
+                    </I18nRoute<L, _, _>>
+                };
+                match $c["base"].as_str().unwrap() {
+                    "" => observe_routes(&leptos_router::RouteDefs::new(routes.clone().into_inner()), $c, $w),
+                    b => observe_routes(&leptos_router::RouteDefs::new_with_base(routes.clone().into_inner(), b.to_string()), $c, $w),
+                }
+            }
+            other => panic!("unknown table {}", other),
+        })
+    }};
+}
+
 pub struct Out {
     w: std::io::BufWriter<std::fs::File>,
 }
@@ -156,6 +256,15 @@ fn main() {
         }
         let c: Value = serde_json::from_str(line).expect("case json");
         w.emit(&json!({"ev": "Begin", "case": c["case"], "n": n}));
+        if c["mode"].as_str() == Some("routes") {
+            match c["set"].as_str().unwrap() {
+                "R1" => route_case!(r1, &c, &mut w),
+                "R2" => route_case!(r2, &c, &mut w),
+                "R3" => route_case!(r3, &c, &mut w),
+                other => panic!("unknown set {}", other),
+            }
+            continue;
+        }
         match c["set"].as_str().unwrap() {
             "R1" => run_case::<r1::i18n::Locale>(&c, &mut w),
             "R2" => run_case::<r2::i18n::Locale>(&c, &mut w),
